@@ -1,7 +1,5 @@
 package helpers
 
-import "fmt"
-
 // IsTruthy converts a value to boolean following Vue semantics.
 // For bound attributes, false values should not render the attribute.
 func IsTruthy(val any) bool {
@@ -14,8 +12,32 @@ func IsTruthy(val any) bool {
 			return false
 		}
 		return true
-	case int, int64, float64:
-		return fmt.Sprintf("%v", b) != "0"
+	case int:
+		return b != 0
+	case int8:
+		return b != 0
+	case int16:
+		return b != 0
+	case int32:
+		return b != 0
+	case int64:
+		return b != 0
+	case uint:
+		return b != 0
+	case uint8:
+		return b != 0
+	case uint16:
+		return b != 0
+	case uint32:
+		return b != 0
+	case uint64:
+		return b != 0
+	case uintptr:
+		return b != 0
+	case float32:
+		return b != 0
+	case float64:
+		return b != 0
 	case nil:
 		return false
 	default:
